@@ -27,6 +27,31 @@ func c15History(c *Ctx, id string, conf machConf, wkind string, autosave, autono
 	pm, _ := model.NewModelFromString(conf.Text)
 	peer, _ := casbin.NewEnforcer(pm)
 	peer.SetAdapter(m.A)
+	// the peer has a watcher of the same kind; a notification reaches it as a call of the
+	// callback registered on that watcher.  SetWatcher registers a default callback (reload)
+	// for every watcher that is not a WatcherEx; for a WatcherEx the application does.
+	var peerCB func(string)
+	switch wkind {
+	case "plain":
+		pw := &recWatcherPlain{recWatcherBase{snap: func() string { return "" }}}
+		_ = peer.SetWatcher(pw)
+		peerCB = pw.Callback
+	case "upd":
+		pw := &recWatcherUpd{recWatcherBase{snap: func() string { return "" }}}
+		_ = peer.SetWatcher(pw)
+		peerCB = pw.Callback
+	case "ex":
+		pw := &recWatcherEx{recWatcherBase{snap: func() string { return "" }}}
+		_ = peer.SetWatcher(pw)
+		if pw.Callback != nil {
+			c.Direct(id, "SetWatcher registered a generic callback on a WatcherEx", wkind)
+		}
+		peerCB = func(string) { _ = peer.LoadPolicy() } // the application's callback
+	}
+	if (wkind == "plain" || wkind == "upd") && peerCB == nil {
+		c.Direct(id, "SetWatcher did not register the default reload callback on a watcher that is not a WatcherEx: its enforcer never follows announcements", wkind)
+		peerCB = func(string) {}
+	}
 	curSave, curNotify := autosave, autonotify
 	peerValid := autosave // the peer can only follow while every change is persisted
 	var ops []mOp
@@ -91,11 +116,10 @@ func c15History(c *Ctx, id string, conf machConf, wkind string, autosave, autono
 			// the peer reloads on the notification
 			saved := m.A.FailIn // the peer's load must not consume an injected failure
 			m.A.FailIn = -1
-			if err := peer.LoadPolicy(); err != nil {
-				c.Direct(id, "the peer could not reload from the shared adapter", opsSx(ops))
-			}
+			nlog := len(m.A.Log)
+			peerCB("announcement")
 			m.A.FailIn = saved
-			m.A.Log = m.A.Log[:len(m.A.Log)-1] // the peer's load is not part of the originator's adapter log
+			m.A.Log = m.A.Log[:nlog] // the peer's load is not part of the originator's adapter log
 			m.logSeen = len(m.A.Log)
 		}
 		if peerValid && curSave && wkind != "none" {
